@@ -73,7 +73,7 @@ def check_case(ctx, case):
     # GenBank round trip (the LOCUS line holds the name: attempted for names of at most 16 characters)
     h = io.StringIO()
     back = None
-    if len(pname) <= 16:
+    if len(pname) <= 16 and not any(ch.isspace() for ch in pname) and pname.isascii():
         try:
             SeqIO.write(prod, h, "genbank")
             back = SeqIO.read(io.StringIO(h.getvalue()), "genbank")
@@ -257,4 +257,8 @@ def run(ctx):
         # the name is free text (a construct is often named after its parts); only the id has to be GenBank-legal
         case["name"] = "".join(rng.choice(alphabet) for _ in range(rng.choice([1, 8, 16, 17, 24, 40])
                                                                       if rng.random() < 0.4 else rng.randint(1, 16)))
+        if rng.random() < 0.25:
+            # free text as people write it: blanks, brackets, punctuation
+            words = [rng.choice(["GFP", "reporter", "(URA3)", "pTDH3", "v2.1", "lab's", "2µ", "A+B", "x"]) for _ in range(rng.randint(2, 4))]
+            case["name"] = rng.choice([" ", "  ", "\t"]).join(words)
         ctx.guard(check_case, case)
